@@ -21,6 +21,8 @@ LEVEL = "model_checking"
 _lock = threading.Lock()
 _counter = itertools.count()
 
+# repaired in /repo by "fix: TopDocs scores a disjunction-max over term queries with its own combiner"; the text is kept so that a
+# regression is reported under the same words
 KF_DISMAX = ("TopDocs::order_by_score on a top-level DisjunctionMaxQuery of term queries ranks and scores by the SUM of the "
              "disjuncts (block-WAND ignores the DisjunctionMaxCombiner); a scoring collector gives max + tie_breaker * rest")
 
@@ -213,19 +215,18 @@ def searches(ctx, runs):
 
 
 def known_finding_runs(ctx):
+    """regression case of the repaired defect (top-level dis-max scored as a sum): must be accepted now"""
     t = lambda x: {"k": "term", "f": "title", "t": x, "opt": "freq"}
-    cases = [{"q": {"k": "dismax", "qs": [t("t0"), t("t1")], "tie": 0.0}, "key": {"kind": "score", "cmp": ["natural"]}, "plan": [[5, 0], [10, 3]]}]
+    cases = [{"q": {"k": "dismax", "qs": [t("t0"), t("t1")], "tie": 0.0}, "key": {"kind": "score", "cmp": ["natural"]}, "plan": [[5, 0], [10, 3]]},
+             {"q": {"k": "dismax", "qs": [t("t0"), t("t1"), t("t2")], "tie": 0.3}, "key": {"kind": "score", "cmp": ["natural"]}, "plan": [[5, 0], [100, 0], [7, 7]]},
+             {"q": {"k": "boost", "b": 2.0, "q": {"k": "dismax", "qs": [t("all"), t("t3")], "tie": 0.0}}, "key": {"kind": "tweak_mul", "cmp": ["natural"]}, "plan": [[10, 0]]}]
     cp = ctx.path("kf_cases.ndjson")
     vlib.write_ndjson(cp, cases)
     tp = ctx.path("kf_trace.ndjson")
     vlib.run_bin("topk_driver", ["search", "--seed", 1, "--docs", 2500, "--fixed", cp, "--no-avoid", "--out", tp], timeout=300)
     seen = []
-    before = ctx.cov["traces_validated_against_impl"]
     validate(ctx, vlib.read_ndjson(tp), "kf", expect=seen)
-    ctx.cov["traces_validated_against_impl"] = before
-    ctx.cov["recorded_findings_reproduced"] = {"dismax_sum": any(KF_DISMAX in s for s in seen)}
-    if not seen:
-        log("[kf] the recorded finding 'top-level dismax scored as a sum' did not reproduce on this tree")
+    ctx.cov["repaired_findings_regressed"] = {"dismax_sum": any(KF_DISMAX in s for s in seen)}
 
 
 def binding_selftest(ctx, topn_events, search_events):
